@@ -52,6 +52,10 @@ def check(run):
         if cands:
             # native replay against a build of the replay crate with that backend feature
             insphere.confirm_and_report(run, 'C11', cands, 'C11[%s]' % b, backend=b)
+        elif any(('C11[%s]' % b) in x for x in run.inconclusive) and not run.violations:
+            bad = insphere.native_vs_reference(run.seed, 6000, backend=b)
+            if bad:
+                insphere.confirm_and_report(run, 'C11', bad[:3], 'C11[%s] (obligations undecided)' % b, backend=b)
     run.guard(structural_side_check)
     run.assume('each big-integer crate implements Z exactly (their arithmetic is not encoded)')
     run.assume('rug backend not buildable in this sandbox: outside the claim')
